@@ -231,6 +231,31 @@ def main():
                 except Exception as e:
                     R.fail('C13:tolerant-rejects:%s:%s:%r' % (v, dt, s), family(dt, s, 'tolerant-rejects:%s' % type(e).__name__),
                            'v%s TOLERANT rejects %s %r with %s: %s' % (v, dt, s, type(e).__name__, e), cap=30)
+    # TN (telephone number, versions up to 2.4): STRICT admits only strings of the HL7 TN format
+    #   [NN] [(999)]999-9999[X99999][B99999][C any text]    (anchored at the start)
+    tn_ok = ['5551234', '555-1234', '(070)9250123', '12 (070)555-1234X12B3Ctext', '5551234X99', '555-1234Canything goes']
+    tn_bad = ['ext 5551234', 'home: (070)9250123', 'n/a (none) 00', 'abc', 'X12', '-555', 'tel 12']
+    for v in VERSIONS:
+        base = lib(v).get_base_datatypes()
+        if 'TN' not in base:
+            continue
+        for s, want in [(x, True) for x in tn_ok] + [(x, False) for x in tn_bad]:
+            try:
+                datatype_factory('TN', s, version=v, validation_level=1)
+                acc = True
+            except Exception:
+                acc = False
+            if acc != want:
+                R.fail('C13:TN:%s:%r' % (v, s), 'C05:TN:%s' % ('over-accept' if acc else 'under-accept'),
+                       'v%s STRICT %s the %s TN literal %r' % (v, 'accepts' if acc else 'rejects', 'invalid' if acc else 'valid', s))
+            else:
+                R.ok((v, 'TN', s))
+            try:
+                t = datatype_factory('TN', s, version=v, validation_level=2)
+                if t.to_er7() != s:
+                    R.fail('C13:TN-tolerant-text:%s:%r' % (v, s), 'C05:TN:tolerant-text-changed', 'v%s %r -> %r' % (v, s, t.to_er7()))
+            except Exception as e:
+                R.fail('C13:TN-tolerant:%s:%r' % (v, s), 'C05:TN:tolerant-rejects', 'v%s TOLERANT rejects %r: %s' % (v, s, e))
     R.rule = 'lexical corpus per datatype (grids + exhaustive short strings); oracle = HL7 lexical definitions restated from the property'
     R.bound = 'NM/SI strings <= %d chars over 9 symbols; full offset grid; %d versions' % (5 if a.tier == 'thorough' else 4, len(versions))
     R.dump(a.out)
